@@ -225,7 +225,7 @@ func (w *World) OpenPumped(clientID string) (*Sess, error) {
 }
 
 // OpenPumped is Open with the client's end of the pipe read continuously (see pumpConn).
-func (w *MyWorld) OpenPumped(clientID string) (*MySess, error) {
+func (w *MyWorld) OpenPumped(clientID string, caps uint32) (*MySess, error) {
 	c1, c2 := net.Pipe() // client <-> proxy
 	d1, d2 := net.Pipe() // proxy <-> database
 	cs := &session{client: c2, db: d1, data: map[string]interface{}{}}
@@ -239,6 +239,9 @@ func (w *MyWorld) OpenPumped(clientID string) (*MySess, error) {
 	proxy.AddClientIDObserver(accessContext)
 	cs.ctx = base.SetAccessContextToContext(cs.ctx, accessContext)
 	s := &MySess{C: fakemy.NewClient(newPumpConn(c1)), Proxy: proxy, errCh: make(chan base.ProxyError, 16), conns: []net.Conn{c1, c2, d1, d2}}
+	if caps != 0 {
+		s.C.Caps = caps
+	}
 	go w.DB.Serve(d2)
 	run := func(f func(context.Context, chan<- base.ProxyError)) {
 		s.done.Add(1)
